@@ -319,6 +319,216 @@ def run_babinet(case, seed, R):
 
 
 # ---------------------------------------------------------------------------------------------
+# (v) over the DTYPE, the integer VALUE SET and the memory LAYOUT of the mask array: the to-mask-and-back map is linear in the mask
+
+MD_DTYPES = ['bool', 'uint8', 'uint16', 'uint32', 'uint64', 'int8', 'int16', 'int32', 'int64', 'float16', 'float32', 'float64', 'complex64', 'complex128']
+MD_PATTERNS = ['binary', 'ones', 'zeros', 'overlap-sum', 'counts', 'scaled', 'twos', 'gray', 'signed', 'negated']
+MD_LAYOUTS = ['C', 'F', 'strided-view', 'reversed-view', 'transposed-view', 'read-only']
+MD_GEOM = [  # pupil shape, mask shape, band (fpm_dx = wvl*efl/(dx*band)), shift in focal samples, unit set
+    {'n': [3, 4], 'mask': [6, 6], 'band': 6.0, 'shift': [0, 0], 'units': 0},        # full band: babinet(M) = T(M)
+    {'n': [4, 3], 'mask': [5, 7], 'band': 8.6, 'shift': [0.5, -1], 'units': 1},    # part of the band, non-square mask, shifted
+]
+
+
+def md_pattern(name, shape, vmax, seed):
+    """integer-valued mask pattern (int64); every mask of the unit is this pattern cast to the dtype under test"""
+    ii, jj = np.mgrid[0:shape[0], 0:shape[1]]
+    yy, xx = ii - shape[0] // 2, jj - shape[1] // 2
+    spot = (xx * xx + yy * yy <= 2).astype(np.int64)
+    bar = (np.abs(xx) <= 0).astype(np.int64) | (ii == 0).astype(np.int64)
+    if name == 'binary':
+        return spot
+    if name == 'ones':
+        return np.ones(shape, dtype=np.int64)
+    if name == 'zeros':
+        return np.zeros(shape, dtype=np.int64)
+    if name == 'overlap-sum':
+        return spot + bar                                   # 0, 1, 2
+    if name == 'counts':
+        return (3 * ii + 5 * jj + seed) % 4                 # 0 .. 3, generic positions
+    if name == 'scaled':
+        return 3 * spot
+    if name == 'twos':
+        return 2 * np.ones(shape, dtype=np.int64)
+    if name == 'gray':
+        p = (37 * ii + 11 * jj + 13 * seed) % (vmax + 1)
+        p[0, 0], p[-1, -1] = vmax, 0
+        return p
+    if name == 'signed':
+        return 1 - (spot + bar)                             # -1, 0, 1: the complement of an overlap sum
+    if name == 'negated':
+        return -((3 * ii + 5 * jj + seed) % 4)
+    raise ValueError(name)
+
+
+def md_kind(dt):
+    return {'b': 'bool', 'u': 'unsigned', 'i': 'signed', 'f': 'float', 'c': 'complex'}[np.dtype(dt).kind]
+
+
+def md_cast(p, dt):
+    """the integer pattern as a mask of dtype dt (None when it is not representable); complex masks get an imaginary part"""
+    dt = np.dtype(dt)
+    if dt.kind == 'b':
+        return p.astype(bool) if p.min() >= 0 and p.max() <= 1 else None
+    if dt.kind in 'ui':
+        info = np.iinfo(dt)
+        return p.astype(dt) if p.min() >= info.min and p.max() <= info.max else None
+    if dt.kind == 'c':
+        return (p * (1 + 0.5j)).astype(dt)
+    return p.astype(dt)
+
+
+def md_layout(m, layout):
+    """the same mask values in another memory layout"""
+    if layout == 'C':
+        return np.ascontiguousarray(m)
+    if layout == 'F':
+        return np.asfortranarray(m)
+    if layout == 'strided-view':
+        big = np.zeros((2 * m.shape[0], 3 * m.shape[1]), dtype=m.dtype)
+        big[::2, 1::3] = m
+        big[1::2] = 7 if m.dtype.kind != 'b' else True
+        return big[::2, 1::3]
+    if layout == 'reversed-view':
+        return np.ascontiguousarray(m[::-1, ::-1])[::-1, ::-1]
+    if layout == 'transposed-view':
+        return np.ascontiguousarray(m.T).T
+    if layout == 'read-only':
+        out = m.copy()
+        out.flags.writeable = False
+        return out
+    raise ValueError(layout)
+
+
+def run_mask_dtypes(case, seed, R):
+    n, ms, sh = tuple(case['n']), tuple(case['mask']), tuple(case['shift'])
+    wvl, efl, dx = UNITS[case['units']]
+    fpm_dx = wvl * efl / (dx * case['band'])
+    shu = (sh[0] * fpm_dx, sh[1] * fpm_dx)
+    full = bool(case['full'])
+    dt = np.dtype(case['dtype'])
+    kind = md_kind(dt)
+    vmax = 127 if dt == np.dtype('int8') else 255
+    p = md_pattern(case['pattern'], ms, vmax, seed)
+    m0 = md_cast(p, dt)
+    if m0 is None:                        # plan() only lists representable patterns
+        R.violation('mask-dtypes:harness', f'pattern {case["pattern"]} is not representable in {dt}')
+        return
+    m = md_layout(m0, case['layout'])
+    vc = 'binary' if (p.min() >= 0 and p.max() <= 1) else 'nonbinary'
+    cell = f'{kind}:{vc}' + ('' if case['layout'] == 'C' else ':layout')
+    lin = 1 + 0.5j if kind == 'complex' else 1
+    mmax = 1.0 + float(np.abs(p).max()) * 3 * abs(lin)
+    where = f'mask dtype {dt}, pattern {case["pattern"]} (values {int(p.min())}..{int(p.max())}), layout {case["layout"]}, mask {ms}, pupil {n}, fpm_dx={fpm_dx:.6g}, shift {sh}'
+    x = dense(n, seed, 23)
+    nx = max(1.0, float(np.linalg.norm(x)))
+    I = np.eye(n[0] * n[1])
+    for method in ('mdft', 'czt'):
+        reset_executors(64)
+
+        def T(mask):
+            return op(R, lambda a: propagation.to_fpm_and_back(a, dx, efl, wvl, mask, fpm_dx, shift=shu, method=method), n, f'to_fpm_and_back:{method}:mask-dtype', n)   # noqa
+
+        def sig(rel):
+            return f'to_fpm_and_back:mask-dtype:{rel}:{method}:{cell}'
+        Tm = T(m)
+        if Tm is None:
+            continue
+        # the unmasked result, from a float64 all-ones mask and from the all-ones mask of the dtype under test
+        T1 = T(np.ones(ms))
+        T1d = T(np.ones(ms, dtype=dt))
+        R.expect_close(T1d, T1, TOL * 2, sig('ones'), f'T(ones of the mask dtype) != T(float64 ones): {where}')
+        # mask + complement = unmasked.  The complement formed in float64 / complex128 (always exact for these integer-valued masks) ...
+        wide = complex if kind == 'complex' else float
+        cw = 1 - m.astype(wide)
+        Tc = T(cw)
+        if Tc is not None and T1 is not None:
+            R.expect_close(Tm + Tc, T1, TOL * mmax * 2, sig('babinet-sum'), f'T(mask) + T(1 - mask [as {np.dtype(wide)}]) != T(ones): {where}')
+        # ... and formed in the mask's own dtype where that dtype can hold it
+        cd = None
+        if kind == 'bool':
+            cd = ~m
+        elif kind == 'unsigned':
+            cd = (1 - m) if p.max() <= 1 else None
+        elif kind == 'signed':
+            cd = md_cast(1 - p, dt)
+        else:
+            cd = 1 - m
+        if cd is not None:
+            if not R.expect(cd.dtype == dt and np.array_equal(cd.astype(wide), cw), 'mask-dtypes:harness', f'complement in the own dtype is not the complement: {where}'):
+                return
+            Tcd = T(cd)
+            if Tcd is not None and T1 is not None:
+                R.expect_close(Tm + Tcd, T1, TOL * mmax * 2, sig('babinet-sum'), f'T(mask) + T(1 - mask [in {dt}]) != T(ones): {where}')
+        # masks combine additively: the two overlapping binary masks whose sum this pattern is; any pattern = its two halves
+        parts = []
+        if case['pattern'] in ('overlap-sum', 'signed'):
+            spot = md_pattern('binary', ms, vmax, seed)
+            rest = p - spot
+            parts.append((spot, rest))
+        ii = np.mgrid[0:ms[0], 0:ms[1]][0]
+        parts.append((np.where(ii % 2 == 0, p, 0), np.where(ii % 2 == 1, p, 0)))
+        for pa, pb in parts:
+            a, b = md_cast(pa, dt), md_cast(pb, dt)
+            if a is None or b is None:
+                continue
+            Ta, Tb = T(a), T(b)
+            if Ta is not None and Tb is not None:
+                R.expect_close(Ta + Tb, Tm, TOL * mmax * 2, sig('additive'), f'T(a) + T(b) != T(a + b) for two masks of dtype {dt} with a + b = mask: {where}')
+        # homogeneity: k * mask, formed exactly, in the same dtype
+        for k in (3, -2):
+            km = md_cast(k * p, dt)
+            if km is None or kind == 'bool':
+                continue
+            Tk = T(km)
+            if Tk is not None:
+                R.expect_close(Tk, k * Tm, TOL * mmax * 2, sig('homogeneous'), f'T({k} * mask) != {k} * T(mask), both masks of dtype {dt}: {where}')
+        if full and p.min() == 1 and p.max() == 1:
+            R.expect_close(Tm, I * lin, TOL * 2, sig('ones'), f'all-ones full-band mask is not the identity: {where}')
+        # the function and the Wavefront methods called with the arrays as explicit arguments (call hygiene), dense field
+        want = (Tm @ x.ravel()).reshape(n)
+        tol = TOL * mmax * nx * 10
+        y = R.call(propagation.to_fpm_and_back, x.copy(), dx, efl, wvl, m, fpm_dx, shift=shu, method=method, sig=f'to_fpm_and_back:{method}:mask-dtype:exception')
+        R.expect_close(y, want, tol, sig('linearity'), f'T(dense) != operator @ dense: {where}')
+        o = R.call(Wavefront(x.copy(), wvl, dx, 'pupil').to_fpm_and_back, efl, m, fpm_dx, method=method, shift=shu, sig=f'Wavefront.to_fpm_and_back:{method}:mask-dtype:exception')
+        if o is not FAILED:
+            R.expect_close(getattr(o, 'data', None), want, tol, f'Wavefront.to_fpm_and_back:mask-dtype:{method}:{cell}', f'Wavefront method differs from the operator of the function: {where}')
+        # Wavefront.babinet forms 1 - fpm itself, in the mask's dtype: unsigned masks with values above 1 cannot hold their complement
+        # (unsigned arithmetic wraps) and are outside the domain of THIS route; babinet takes no shift
+        if sh == (0, 0) and not (kind == 'unsigned' and p.max() > 1) and Tc is not None:
+            wantb = x - (Tc @ x.ravel()).reshape(n)
+            for lk in ('none', 'real'):
+                lyot = None if lk == 'none' else dense(n, seed, 24, complex_=False)
+                o = R.call(Wavefront(x.copy(), wvl, dx, 'pupil').babinet, efl, lyot, m, fpm_dx, method=method, sig=f'Wavefront.babinet:{method}:mask-dtype:exception')
+                if o is FAILED:
+                    continue
+                L = 1.0 if lyot is None else lyot
+                tb = tol * (1.0 if lyot is None else 1.0 + float(np.abs(lyot).max()))
+                R.expect_close(getattr(o, 'data', None), L * wantb, tb, f'Wavefront.babinet:mask-dtype:{method}:{cell}', f'babinet(lyot-{lk}, fpm) != lyot*(f - T(1-fpm) f): {where}')
+                if full:
+                    R.expect_close(getattr(o, 'data', None), L * want, tb, f'Wavefront.babinet:mask-dtype:{method}:{cell}', f'on the full-band grid babinet(lyot-{lk}, fpm) != lyot*T(fpm) f: {where}')
+    R.nontrivial(True)
+    R.outcome(f'{kind}:{vc}')
+
+
+def md_cases():
+    out = []
+    for g in MD_GEOM:
+        full = int(g['band'] == g['mask'][0] == g['mask'][1])
+        for dtn in MD_DTYPES:
+            dt = np.dtype(dtn)
+            vmax = 127 if dtn == 'int8' else 255
+            for pat in MD_PATTERNS:
+                if md_cast(md_pattern(pat, tuple(g['mask']), vmax, 0), dt) is None:
+                    continue
+                lays = MD_LAYOUTS if (pat == 'counts' and dtn in ('uint8', 'int64', 'float64')) or (pat == 'binary' and dtn == 'bool') else ['C']
+                for lay in lays:
+                    out.append(dict(g, full=full, dtype=dtn, pattern=pat, layout=lay))
+    out.sort(key=lambda c: (c['layout'] != 'C', MD_PATTERNS.index(c['pattern'])))
+    return out
+
+
+# ---------------------------------------------------------------------------------------------
 # argument forms of the shift; re-use of one shift object
 
 def shift_forms(shu):
@@ -851,6 +1061,14 @@ def plan(tier, seed):
         ScopeUnit('babinet', bab_cases, run_babinet,
                   f'every pupil shape in [1..{nmax}]^2 x every mask shape in [1..{mmax}]^2 (equal / smaller / larger / mixed) x fpm_dx from bands {{5, 8.6}} x {{real, complex}} seeded dense mask x {{mdft, czt}} x mask shift {{(0,0), (0.5,-1)}}: '
                   'operator matrices T(mask) + T(1-mask) = T(ones); T linear in the field; Wavefront.babinet(lyot in {None, real, complex}, fpm) operator equals diag(lyot)(I - T(1-fpm)); return_more planes', reset=rs),
+        ScopeUnit('mask_dtypes', md_cases(), run_mask_dtypes,
+                  f'dtype / value-set / layout alphabet of the mask ndarray on the to-mask-and-back path: mask dtype in {MD_DTYPES} x integer-valued pattern in {MD_PATTERNS} '
+                  '(0/1 spot; all ones / zeros / twos; sum of two overlapping 0/1 masks = 0,1,2; counts 0..3 at generic positions; 3*spot; 8-bit gray 0..255 [0..127 for int8]; complement of an overlap sum = -1,0,1; negated counts; '
+                  'every pattern the dtype can hold exactly, complex masks = pattern*(1+0.5j)) x 2 geometries (pupil (3,4), 6x6 full-band mask, no shift; pupil (4,3), 5x7 mask on part of the band, shift (0.5,-1) samples) x {mdft, czt}; '
+                  f'memory layouts {MD_LAYOUTS} for counts in uint8 / int64 / float64 and the bool spot.  Operator matrices from all complex deltas: T(mask) + T(1-mask) = T(ones) with the complement formed in float64/complex128 and, '
+                  'where the dtype can hold it, in the mask\'s own dtype; T(a) + T(b) = T(a+b) for the two overlapping binary masks and for the even-row / odd-row halves of every pattern; T(k*mask) = k*T(mask), k in {3, -2}, where representable; '
+                  'T(ones of the dtype) = T(float64 ones) (= I on the full band); function and Wavefront.to_fpm_and_back on a dense field through the call-hygiene layer; Wavefront.babinet(lyot in {None, real}, mask) = lyot*(f - T(1-mask) f) '
+                  '(= lyot*T(mask) f on the full band) -- except unsigned masks holding values above 1, whose complement babinet cannot form in the mask\'s dtype', reset=rs),
         HistoryUnit('embedding_history', he_inits, he_fresh, he_events, he_apply, he_check, he_canon, 2,
                     'for each family (output M, input lengths that round to the same fast FFT length: 14,15,16 -> 16; 30,31,32 -> 32; 62,63,64 -> 64; square and two non-square members) x 2 unit sets: every history of length <= 2 over '
                     '(array shape, method in {mdft, czt}, direction) on the SHARED module-level executors with no clear() in between; one seeded dense physical field of the smallest size is embedded (by the harness) in each array; '
